@@ -33,6 +33,7 @@ func isTagMap(t types.Type) bool {
 }
 
 func runC19(ctx *core.Ctx) {
+	c19Round6(ctx)
 	c19Round5(ctx)
 	ctx.Trusted = append(ctx.Trusted, "go/types, go/ssa", "strings.Fields returns only non-empty fields (so a line that starts with '+' has a non-empty first field)", "unicode.IsLetter/IsDigit, strings.* are total")
 	ctx.Rule("B1", "one interpreter of the tag set: in package imports a tags parameter (map[string]bool) is indexed with a non-constant key only inside the single function that implements the android=>linux and '*' rules (the function that reads tags[\"android\"]); constant-key reads are exempt", 1)
